@@ -191,8 +191,11 @@ def gen_trait_level(g):
         for it in (ro, un):
             it.fields = [Field("a", "i32"), Field("b", "u8")]
     else:
+        # a third variant that only S has (action-less #[ghost]): the Into impls need the instruction's `_ => ..` default case, which makes an
+        # inherited default case visible in the expansion; half of the time a #[literal] variant does the same for the From direction
+        third = Variant("V2", attrs=[Instr("ghost", "ghost", container=None, action=None)]) if g.chance(0.7) else None
         for it in (ro, un):
-            it.variants = [Variant("V0"), Variant("V1", "tuple", [Field(None, "i32")])]
+            it.variants = [Variant("V0"), Variant("V1", "tuple", [Field(None, "i32")])] + ([third] if third else [])
     names = r.sample(["from_owned", "owned_into", "map", "try_from_ref", "into", "ref_into", "try_map_owned", "from", "into_existing" if kind == "struct" else "map_ref"], r.randint(1, 3))
     if g.chance(0.4):
         # an instruction name together with its try_ twin: they must not share a repeat block
